@@ -39,6 +39,12 @@ CHECKS = {
               "them and the class; catch-all captures exactly the unknown pairs in order minus the tag key; unknown keys never change "
               "mapped fields; model tied to the code over policy x depth x repetition"),
         technique='Lean 4 proof over a hand model + differential correspondence', ref='4 C10'),
+    'C11': dict(
+        text=("Lean theorems: the generated skip bookkeeping omits exactly the reference selection (exclude, dump=False, skip_defaults "
+              "with the argument winning, skip_defaults_if, per-field SkipIf else Meta.skip_if) whenever no comparison raises; operator "
+              "table regenerated from the source; NaN comparison value selects nothing; model tied to the code on literal class models, "
+              "oracle against Condition.evaluate over hashable/unhashable/non-finite/Enum/object comparison values"),
+        technique='Lean 4 proof over a hand model + generated operator table + differential correspondence', ref='4 C11'),
     'C08': dict(
         text=("Lean theorems about the model of string_conv / object_path (casing round trips for canonical snake names, "
               "tokenizer facts), model tied to the code by exhaustive small-alphabet correspondence plus end-to-end alias/path checks"),
